@@ -230,6 +230,28 @@ def apply_step(state, step, info):
         info["mutated"] = True
         cl.add("mutate_dict_passed_to_setter")
         return _invariants(state, "after_mutating_passed_dict")
+    if op == "set_passed_again":
+        # the very dict object passed earlier - possibly edited by the caller since - is passed again
+        if state.passed is None:
+            return None
+        arg = state.passed
+        snapshot = copy.deepcopy(arg)
+        r = call(sf.set_semantic_constraints, arg, expected=(ValueError,))
+        valid = R.table_is_documented(snapshot)
+        if r[0] == "ok":
+            if not valid and not _documented_keys(snapshot):
+                return Fail("set:invalid_accepted:same_object_passed_again", arg=repr(snapshot)[:300])
+            if not valid and any((not isinstance(v, int)) or isinstance(v, bool) or v < 0 for v in snapshot.values()):
+                return Fail("set:invalid_accepted:same_object_passed_again", arg=repr(snapshot)[:300])
+            state.table = dict(snapshot)
+            state.alpha = set(sf.get_semantic_robust_alphabet())
+            cl.add("same_object_passed_again_accepted")
+            return _invariants(state, "after_set_same_object")
+        if valid:
+            return Fail("set:documented_table_rejected", table=_short(snapshot), got=str(r)[:200])
+        cl.add("same_object_passed_again_rejected")
+        info["rejected"] = True
+        return _invariants(state, "after_rejected_same_object")
     if op == "decode_some":
         for x in step["strings"]:
             O.decode(x)
@@ -328,6 +350,10 @@ class Machine(S.HistoryMachine):
     @rule(how=st.integers(0, 3))
     def mutate_passed(self, how):
         self.do(dict(op="mutate_passed", how=how))
+
+    @rule()
+    def set_passed_again(self):
+        self.do(dict(op="set_passed_again"))
 
     @rule(blob=BLOB)
     def decode_some(self, blob):
